@@ -210,6 +210,15 @@ func (e *Engine) storeHeap(st *State, obj *smt.Term, key string, t types.Type, v
 			e.storeHeap(st, obj, key+"."+f.Name(), f.Type(), s.F[i])
 		}
 		return
+	case *types.Array:
+		// an array embedded in a heap object is its own region (region$key(obj)); storing
+		// an executor-level array value writes its elements there
+		if _, ok := v.(*ArrV); ok {
+			// (composite literals: the zero value; the content of the embedded array of the
+			// new object is left unconstrained, which is weaker than "all zero" and sound)
+			e.regionOfNoted(st, key, obj)
+			return
+		}
 	}
 	tv := e.asTerm(st, v, t)
 	st.Heap[key] = e.C.Store(e.heapArr(st, key, smt.BV64), obj, tv)
@@ -960,12 +969,34 @@ func (e *Engine) preexistingBeforeFresh(st *State, r *smt.Term) {
 			return
 		}
 	}
-	if r.Op == smt.OSelect && r.Args[0].Op == smt.OVar {
-		// read from an initial (pre-state) heap array: certainly pre-existing
+	if r.Op == smt.OSelect && r.Args[0].Op == smt.OVar && entryReachable(r.Args[1]) {
+		// read from an initial (pre-state) heap array at an object that existed at function
+		// entry: certainly pre-existing. (A field of an object that a callee returned as fresh
+		// is read from the same unmodified array but may well point to an object allocated
+		// here before the call.)
 		for _, f := range st.Fresh {
 			st.Assume(e.C.Not(e.C.Eq(r, f)))
 		}
 	}
+}
+
+// entryReachable: the term denotes an object reachable from the function's inputs through
+// initial heap arrays only (so it existed at function entry).
+func entryReachable(t *smt.Term) bool {
+	for depth := 0; depth < 8; depth++ {
+		switch {
+		case t.Op == smt.OVar:
+			return strings.HasPrefix(t.Name, "in$") || strings.HasPrefix(t.Name, "g$") || strings.HasPrefix(t.Name, "gaddr$")
+		case t.Op == smt.OSelect && t.Args[0].Op == smt.OVar:
+			t = t.Args[1]
+		case t.Op == smt.OApp && len(t.Args) == 1:
+			// interface wrappers / ghost accessors of an entry-reachable object
+			t = t.Args[0]
+		default:
+			return false
+		}
+	}
+	return false
 }
 
 // preexisting states that a reference/region term read from symbolic state is
